@@ -274,7 +274,7 @@ Lemma root_inv_step c Q r :
 Proof.
   intros (sr & Hsr & Hpr). unfold apply_if_admitted.
   destruct (allowed (verdict_of c Q r)) eqn:Hv; [|by eauto]. apply allowed_eq in Hv.
-  destruct r as [n s|n s|n|n a st]; simpl in *.
+  destruct r as [n s|n s|n|n|n|n a st]; simpl in *.
   - destruct (Q !! n) as [o|] eqn:Hn; [by eauto|].
     exists sr. rewrite lookup_insert_ne; [done|]. intros ->. congruence.
   - destruct (Q !! n) as [o|] eqn:Hn; [|by eauto].
@@ -284,6 +284,11 @@ Proof.
     destruct (decide (qparent sr = qparent s)) as [Heq|Hne]; [congruence|].
     apply admit_cu_allowed in Hv as (_ & Hh & _). by apply (hier_root c Q), Hh.
   - apply admit_delete_allowed in Hv as (Hr & _). exists sr. by rewrite lookup_delete_ne.
+  - by eauto.
+  - destruct (bool_decide (children_of Q n = []) && negb (bool_decide (n = root)) && negb (bool_decide (n = default_q))) eqn:Hg; [|by eauto].
+    apply andb_true_iff in Hg as [Hg Hgd]. apply andb_true_iff in Hg as [Hgk Hgr].
+    apply bool_decide_eq_true in Hgk. apply negb_true_iff, bool_decide_eq_false in Hgr, Hgd.
+    exists sr. by rewrite lookup_delete_ne.
   - destruct (Q !! n) as [o|] eqn:Hn; [|by eauto].
     destruct (decide (n = root)) as [->|Hne]; [|exists sr; by rewrite lookup_insert_ne].
     rewrite Hsr in Hn. inversion Hn; subst o. eexists. rewrite lookup_insert. split; [done|]. done.
@@ -294,7 +299,7 @@ Lemma shape_step c Q r :
 Proof.
   intros Hmax [Hroot Hinv]. split; [by apply root_inv_step|]. unfold apply_if_admitted.
   destruct (allowed (verdict_of c Q r)) eqn:Hv; [|done]. apply allowed_eq in Hv.
-  destruct r as [n s|n s|n|n a st]; simpl in *.
+  destruct r as [n s|n s|n|n|n|n a st]; simpl in *.
   - (* CREATE *)
     destruct (Q !! n) as [o|] eqn:Hn; [done|].
     apply admit_cu_allowed in Hv as (_ & Hh & _). specialize (Hh I).
@@ -320,6 +325,13 @@ Proof.
         -- exists (j + dn)%nat. split; [done|]. exact (Hbelow _ _ Hb).
   - (* DELETE *)
     apply admit_delete_allowed in Hv as (Hnr & _ & s & Hn & _ & Hkids).
+    intros m sm Hm Hmr. apply lookup_delete_Some in Hm as [Hne Hm].
+    destruct (Hinv _ _ Hm Hmr) as (k & Hk & Hkle). exists k. split; [|done].
+    apply reach_delete_leaf; [|done..]. intros x sx Hx. by eapply children_nil.
+  - done.
+  - destruct (bool_decide (children_of Q n = []) && negb (bool_decide (n = root)) && negb (bool_decide (n = default_q))) eqn:Hg; [|done].
+    apply andb_true_iff in Hg as [Hg Hgd]. apply andb_true_iff in Hg as [Hgk Hgr].
+    apply bool_decide_eq_true in Hgk. apply negb_true_iff, bool_decide_eq_false in Hgr, Hgd.
     intros m sm Hm Hmr. apply lookup_delete_Some in Hm as [Hne Hm].
     destruct (Hinv _ _ Hm Hmr) as (k & Hk & Hkle). exists k. split; [|done].
     apply reach_delete_leaf; [|done..]. intros x sx Hx. by eapply children_nil.
@@ -431,7 +443,7 @@ Lemma per_queue_step c Q r : PerQueueInv Q -> PerQueueInv (apply_if_admitted c Q
 Proof.
   intros Hinv. unfold apply_if_admitted.
   destruct (allowed (verdict_of c Q r)) eqn:Hv; [|done]. apply allowed_eq in Hv.
-  destruct r as [n s|n s|n|n a st]; simpl in *.
+  destruct r as [n s|n s|n|n|n|n a st]; simpl in *.
   - destruct (Q !! n) eqn:Hn; [done|]. apply admit_cu_allowed in Hv as (Hs & _).
     intros m sm Hm. apply lookup_insert_Some in Hm as [[_ <-]|[_ Hm]]; [|by eapply Hinv].
     by apply QueueOk_with_alloc, spec_ok_QueueOk.
@@ -439,6 +451,9 @@ Proof.
     intros m sm Hm. apply lookup_insert_Some in Hm as [[_ <-]|[_ Hm]]; [|by eapply Hinv].
     by apply QueueOk_with_alloc, spec_ok_QueueOk.
   - intros m sm Hm. apply lookup_delete_Some in Hm as [_ Hm]. by eapply Hinv.
+  - done.
+  - destruct (bool_decide (children_of Q n = []) && negb (bool_decide (n = root)) && negb (bool_decide (n = default_q))); [|done].
+    intros m sm Hm. apply lookup_delete_Some in Hm as [_ Hm]. by eapply Hinv.
   - destruct (Q !! n) as [o|] eqn:Hn; [|done].
     intros m sm Hm. apply lookup_insert_Some in Hm as [[_ <-]|[_ Hm]]; [|by eapply Hinv].
     apply QueueOk_with_alloc. by eapply Hinv.
@@ -808,7 +823,7 @@ Proof.
   pose proof (shape_step c Q r Hmax Hshape) as Hshape'.
   unfold apply_if_admitted in *.
   destruct (allowed (verdict_of c Q r)) eqn:Hv; [|done]. apply allowed_eq in Hv.
-  destruct r as [n s|n s|n|n a st]; simpl in *.
+  destruct r as [n s|n s|n|n|n|n a st]; simpl in *.
   - destruct (Q !! n) as [o|] eqn:Hn; [done|].
     eapply (cu_sum c Q n s (with_status 0 0 s) None); eauto.
     exact (root_parent_none c Q n s None Hshape Hn Hv).
@@ -816,6 +831,11 @@ Proof.
     eapply (cu_sum c Q n s (with_status (qalloc o) (qstate o) s) (Some o)); eauto.
     exact (root_parent_none c Q n s (Some o) Hshape Hn Hv).
   - destruct Hsum as [Hg Hd]. split; apply sumF_delete; try done.
+    + intros m sm d Hm. by destruct (QueueOk_nonneg sm (Hper _ _ Hm) d) as (_ & _ & ?).
+    + intros m sm d Hm. by destruct (QueueOk_nonneg sm (Hper _ _ Hm) d) as (_ & ? & _).
+  - done.
+  - destruct (bool_decide (children_of Q n = []) && negb (bool_decide (n = root)) && negb (bool_decide (n = default_q))); [|done].
+    destruct Hsum as [Hg Hd]. split; apply sumF_delete; try done.
     + intros m sm d Hm. by destruct (QueueOk_nonneg sm (Hper _ _ Hm) d) as (_ & _ & ?).
     + intros m sm d Hm. by destruct (QueueOk_nonneg sm (Hper _ _ Hm) d) as (_ & ? & _).
   - destruct (Q !! n) as [o|] eqn:Hn; [|done].
@@ -880,11 +900,16 @@ Lemma protected_step c Q r n :
 Proof.
   intros Hn Hin. unfold apply_if_admitted.
   destruct (allowed (verdict_of c Q r)) eqn:Hv; [|done]. apply allowed_eq in Hv.
-  destruct r as [m s|m s|m|m a]; simpl in *.
+  destruct r as [m s|m s|m|m|m|m a]; simpl in *.
   - destruct (Q !! m); [done|]. apply lookup_insert_is_Some'. by right.
   - destruct (Q !! m); [|done]. apply lookup_insert_is_Some'. by right.
   - apply admit_delete_allowed in Hv as (Hr & Hd & _). rewrite lookup_delete_ne; [done|].
     destruct Hn as [-> | ->]; done.
+  - done.
+  - destruct (bool_decide (children_of Q m = []) && negb (bool_decide (m = root)) && negb (bool_decide (m = default_q))) eqn:Hg; [|done].
+    apply andb_true_iff in Hg as [Hg Hgd]. apply andb_true_iff in Hg as [Hgk Hgr].
+    apply negb_true_iff, bool_decide_eq_false in Hgr, Hgd.
+    rewrite lookup_delete_ne; [done|]. destruct Hn as [-> | ->]; done.
   - destruct (Q !! m); [|done]. apply lookup_insert_is_Some'. by right.
 Qed.
 
@@ -1346,12 +1371,14 @@ Proof.
   pose proof (shape_step c Q r Hmax Hshape) as Hshape'.
   unfold apply_if_admitted in *.
   destruct (allowed (verdict_of c Q r)) eqn:Hv; [|done]. apply allowed_eq in Hv.
-  destruct r as [n s|n s|n|n a st]; simpl in *.
+  destruct r as [n s|n s|n|n|n|n a st]; simpl in *.
   - destruct (Q !! n) as [o|] eqn:Hn; [done|].
     eapply (cu_cap c Q n s (with_status 0 0 s) None); eauto.
   - destruct (Q !! n) as [o|] eqn:Hn; [|done].
     eapply (cu_cap c Q n s (with_status (qalloc o) (qstate o) s) (Some o)); eauto.
   - by apply cap_delete.
+  - done.
+  - destruct (bool_decide (children_of Q n = []) && negb (bool_decide (n = root)) && negb (bool_decide (n = default_q))); [|done]. by apply cap_delete.
   - destruct (Q !! n) as [o|] eqn:Hn; [|done]. eapply cap_agree; eauto.
 Qed.
 
@@ -1575,11 +1602,14 @@ Proof.
     destruct (decide (n = root)) as [->|Hnr]; [by rewrite bool_decide_eq_true_2|].
     rewrite (bool_decide_eq_false_2 (n = root)) by done. simpl.
     destruct (_ || _); [by apply validate_resources_no_fuel|done]. }
-  destruct r as [n s|n s|n|n a st]; simpl.
+  destruct r as [n s|n s|n|n|n|n a st]; simpl.
   - apply Hcu.
   - destruct (Q !! n); [apply Hcu|done].
   - unfold admit_delete. destruct (_ || _); [done|]. destruct (Q !! n); [|done].
     destruct (_ && _); [done|]. by destruct (negb _).
+  - unfold admit_delete. destruct (_ || _); [done|]. destruct (Q !! n); [|done].
+    destruct (_ && _); [done|]. by destruct (negb _).
+  - by destruct (Q !! n).
   - by destruct (Q !! n).
 Qed.
 End Fuel.
